@@ -92,7 +92,11 @@ func parseString(filename string, input antlr.CharStream) (tree parser.ISysl_fil
 	return tree, nil
 }
 
-func importForeign(def importDef, input antlr.CharStream) (antlr.CharStream, error) {
+// importForeign converts a file of a foreign format to Sysl. fs is the filesystem of the compilation (the project root);
+// an importer that follows references to other files ($ref: other.yaml#/definitions/X in a Swagger file) reads them
+// from it, so that they resolve under the root like imports do and not against the working directory of the process on
+// the bare disk.
+func importForeign(def importDef, input antlr.CharStream, fs afero.Fs) (antlr.CharStream, error) {
 	logger := logrus.StandardLogger()
 	fileName, _ := mod.ExtractVersion(def.filename)
 	file := input.GetText(0, input.Size())
@@ -122,6 +126,9 @@ func importForeign(def importDef, input antlr.CharStream) (antlr.CharStream, err
 		imp, err = imp.Configure(&importer.ImporterArg{AppName: def.appname, PackageName: def.pkg, Imports: ""})
 		if err != nil {
 			return nil, syslutil.Exitf(ParseError, "%s", err.Error())
+		}
+		if withFs, ok := imp.(interface{ WithFs(afero.Fs) }); ok && fs != nil {
+			withFs.WithFs(fs)
 		}
 		// FIXME: because filepath information is not provided, external references are ignored in OpenAPI3.
 		output, err := imp.Load(file)
@@ -269,10 +276,12 @@ func (p *Parser) Parse(resource string, reader reader.Reader) (*sysl.Module, err
 		return listener.module, nil
 	}
 
-	return p.parseSpecs(specs, listener)
+	return p.parseSpecs(specs, listener, reader)
 }
 
-func (p *Parser) parseSpecs(specs []srcInput, listener *TreeShapeListener) (*sysl.Module, error) { //nolint:funlen
+func (p *Parser) parseSpecs(
+	specs []srcInput, listener *TreeShapeListener, fs afero.Fs,
+) (*sysl.Module, error) { //nolint:funlen
 	// Import all foreign types in parallel
 	type syslInput struct {
 		src             importDef
@@ -298,7 +307,7 @@ func (p *Parser) parseSpecs(specs []srcInput, listener *TreeShapeListener) (*sys
 
 			fsinput := &fsFileStream{antlr.NewInputStream(v.input), v.src.filename}
 			var err error
-			out.str, err = importForeign(v.src, fsinput)
+			out.str, err = importForeign(v.src, fsinput, fs)
 			if err != nil {
 				return err
 			}
